@@ -7,12 +7,14 @@ import UpfVerif.Driver.CtlProps
 import UpfVerif.Driver.Perio
 import UpfVerif.Driver.Config
 import UpfVerif.Driver.Buf
+import UpfVerif.Driver.Conc
 open UpfVerif UpfVerif.Driver
 
 /-- stateless evaluators, by function name -/
 def evalT (fn : String) (args : List String) (impl : String) : Option Verdict :=
   if fn.startsWith "drv." then Drv.eval fn args impl else
   if fn.startsWith "cfg." then ConfigD.eval fn args impl else
+  if fn.startsWith "stop." || fn.startsWith "conc." || fn.startsWith "wedge." then ConcD.eval fn args impl else
   match fn with
   | "gtpu.encode" => evalGtpu args impl
   | "fd.parse" => evalFlowDesc args impl
